@@ -186,6 +186,7 @@ class TaskRegistry:
 
         for task in self.tasks:
             task.cancel()
+            task.xknx = None  # reset xknx to flag unregistration
         self.tasks = set()
 
     async def block_till_done(self) -> None:
